@@ -188,7 +188,7 @@ def _in(node: ast.AST, root: ast.AST) -> bool:
 @rule("FMT", ["C05", "C12", "C14", "C17", "C19"], floor=20, section="3.11")
 def fmt(ctx: Ctx) -> List[Ob]:
     """layout: 1-based entry indices with 0 for the root in writer and both readers; the maps written to the header are the ones applied; clone references only under equal kind and keyed like is_clone(); key/value compression mirrored; load() validates the header; save zips unless compression is False and flushes the text wrapper"""
-    from .util import always_before, not_after, cond_texts, exit_cases, find_cases, find_under, path_conds, reaching_values, resolve_expr, split_cond, stmts_before
+    from .util import local_value, always_before, not_after, cond_texts, exit_cases, find_cases, find_under, path_conds, reaching_values, resolve_expr, split_cond, stmts_before
 
     obs: List[Ob] = []
     m = ctx.model
@@ -441,6 +441,12 @@ def fmt(ctx: Ctx) -> List[Ob]:
             known = cond_texts_resolved(ctx, ld, fl_[0], path_conds(ctx, ld, fl_[0]), keep=[ov])
             need = {f"isinstance({ov}, dict)", f"'meta' in {ov}", f"'nodes' in {ov}", f"'$generator' in {ov}['meta']"}
             gen_ok = any(t.startswith("'nutree/' in") and "$generator" in t for t in known)
+            if not gen_ok:
+                # the generator string is kept in a local that is bound in one branch only (`generator = str(obj['meta'][...])`)
+                for a_, p_ in path_conds(ctx, ld, fl_[0]):
+                    if p_ and isinstance(a_, ast.Compare) and len(a_.ops) == 1 and isinstance(a_.ops[0], ast.In) and norm(a_.left) == "'nutree/'":
+                        if "$generator" in norm(local_value(ctx, ld, a_.comparators[0])):
+                            gen_ok = True
             ok = need <= known and gen_ok
     O(["C12"], ld, "load() rejects JSON without the nutree header", ok, "non-dict documents, missing meta/nodes/$generator or a foreign generator must be refused", rz[0].stmt if rz else None)
     if ov is not None:
